@@ -334,6 +334,44 @@ def wfMode (m : Mode) : Bool :=
 
 def isGraphics (m : Mode) : Bool := m.kind = 1 || m.kind = 2 || m.kind = 3
 
+
+/-! ### mode switches (Display.screen / _set_mode as far as video memory sees them)
+
+  `Memory` reads and writes video memory through the mapper of the CURRENT mode object
+  (`self._display.mode.memorymap`).  `Display.screen` compares the requested mode with the current one
+  by NAME: a different name installs a brand-new mode object — new mapper, so read plane 0 and write
+  mask 0xff again — with freshly erased pages; the same name (e.g. `SCREEN 9` in SCREEN 9, or
+  `SCREEN 9,,1,1`) only changes the active/visible page and keeps the mapper with its registers. -/
+
+/-- freshly erased pages: graphics all attribute 0; text blanks with attribute 7 -/
+def initScr (m : Mode) : Scr :=
+  if m.kind = 0 then fun _ _ x => if x % 2 = 0 then 32 else 7 else fun _ _ _ => 0
+
+/-- state of a fresh mode object -/
+def initSt (m : Mode) : St := ⟨initScr m, 0, 255⟩
+
+structure Machine where
+  mode : Mode
+  np : Nat
+  st : St
+
+/-- SCREEN / WIDTH / CLEAR ,,,n that lead to mode `m` with `np` pages -/
+def switchMode (mc : Machine) (m : Mode) (np : Nat) : Machine :=
+  if m.name = mc.mode.name then mc else ⟨m, np, initSt m⟩
+
+/-- CLEAR ,,,n with a new video memory size (`force_reset`): a fresh mode object whatever its name -/
+def resetMode (_mc : Machine) (m : Mode) (np : Nat) : Machine := ⟨m, np, initSt m⟩
+
+/-- PEEK / POKE / BSAVE / BLOAD go to the mapper of the current mode -/
+def mPeek (mc : Machine) (addr : Nat) : Nat := peek mc.mode mc.np mc.st addr
+def mPoke (mc : Machine) (addr v : Nat) : Machine := { mc with st := poke mc.mode mc.np mc.st addr v }
+def mGet (mc : Machine) (addr n : Nat) : List Nat := getMemory mc.mode mc.np mc.st addr n
+def mSet (mc : Machine) (addr : Nat) (bytes : List Nat) : Machine :=
+  { mc with st := setMemory mc.mode mc.np mc.st addr bytes }
+/-- OUT &H3CF,v / OUT &H3C5,v act on the mapper of the current mode -/
+def mOutPlane (mc : Machine) (v : Nat) : Machine := { mc with st := { mc.st with plane := v } }
+def mOutMask (mc : Machine) (v : Nat) : Machine := { mc with st := { mc.st with mask := v } }
+
 /-- the mode with a given name in the generated table -/
 def findMode (name : String) : Option Mode := table.find? (fun m => m.name = name)
 
